@@ -1,7 +1,7 @@
 (* C06 - the structural Spec has the shape the property text demands: the transcript of a complete run
    is well bracketed for objects (ctor/dtor) and for defers (reg/defer) - every object destroyed exactly
    once, every reached defer run exactly once, both LIFO, enclosed scopes closed before enclosing ones -
-   and it never contains a stack-imbalance line. *)
+   and it never contains a stack-imbalance line; by the refinement the same holds of the machine. *)
 From Coq Require Import List Arith Bool Lia.
 Import ListNotations.
 From Cb Require Import C06.Model C06.Prims C06.Refine.
@@ -217,20 +217,20 @@ Proof.
   inversion E; subst. eauto.
 Qed.
 
-(* ---- transfer to the Mech model on the safe fragment *)
-Lemma mrun_safe_complete : forall p fuel st, safe_prog p = true -> mrun fuel p = Some (true, st) ->
+(* ---- transfer to the Mech model: every program *)
+Lemma mrun_complete : forall p fuel st, mrun fuel p = Some (true, st) ->
   srun fuel p = Some (true, tr st) /\ dfs st = [] /\ dts st = [[]] /\ scd st = 1.
 Proof.
-  intros p fuel st Hp E. pose proof (run_ref p Hp fuel) as R.
+  intros p fuel st E. pose proof (run_ref p fuel) as R.
   destruct (srun fuel p) as [[[|] t]|].
   - rewrite R in E. inversion E; subst; simpl. auto.
   - destruct R as (st' & E' & _). rewrite E' in E. discriminate.
   - rewrite R in E. discriminate.
 Qed.
 
-Lemma mrun_safe_brackets : forall p fuel st, safe_prog p = true -> mrun fuel p = Some (true, st) ->
+Lemma mrun_brackets : forall p fuel st, mrun fuel p = Some (true, st) ->
   chk2 [] [] (tr st) = Some ([], []) /\ Forall not_imb (tr st) /\ dfs st = [] /\ dts st = [[]] /\ scd st = 1.
 Proof.
-  intros p fuel st Hp E. destruct (mrun_safe_complete p fuel st Hp E) as (S & A & B & C).
+  intros p fuel st E. destruct (mrun_complete p fuel st E) as (S & A & B & C).
   split; [eapply srun_brackets; eauto|]. split; [eapply srun_noimb; eauto|]. auto.
 Qed.
